@@ -11,7 +11,6 @@ From V.model Require Import Base RelLex RelParse RelAcc RelGrammar.
 From V.model Require Import RelEdit RelEditSpec RelEditTree RelLive RelHandles.
 From V.proofs Require Import BaseP RelEditP RelEditStP RelEditHistP RelEditTreeP RelEditReplaceP RelGrammarAccP.
 From V.proofs Require Import RelLiveP RelLiveStepP RelLiveWfP RelLiveNormP RelLiveHistP.
-Set Default Timeout 60.
 
 (* ------------------------------------------------------------------ registers *)
 Definition reg_at (rs : list (option hnd)) (q : nat) : option hnd :=
